@@ -23,7 +23,7 @@ type Oblig struct {
 }
 
 type execStats struct {
-	instrs, calls, loopsUnrolled, bitScanLoops, bigConstMux int
+	instrs, calls, loopsUnrolled, bitScanLoops, bigConstMux, mergedChecks int
 }
 
 type ExecFail struct{ Msg string }
@@ -53,6 +53,7 @@ type Exec struct {
 	goPolicy string
 	spawned []*spawnedGo
 	bitScanStack []bitScanCtx
+	rtIndex map[rtKey]*rtEntry
 	killPath *Term
 	backings map[string]*Object
 	panicAsAssume bool // treat explicit panics as path end without obligation (per harness option)
@@ -96,6 +97,8 @@ type Frame struct {
 	died    *Term
 	defers  []deferred
 	cur     *Term // current guard inside the block being executed
+	forceIf  *ssa.If // bit-scan loops: the header's loop condition is known in each virtual iteration
+	forceVal bool
 }
 
 func NewExec(ld *Loaded) *Exec {
@@ -138,7 +141,32 @@ func (x *Exec) runtimeCheck(what string, g, bad *Term, pos token.Pos) {
 		x.stat.instrs++ // cheap counter; trivially discharged checks are not recorded individually
 		return
 	}
-	x.addOblig("panic", what+"@"+x.posStr(pos), cnd, pos)
+	// the same check (same source position, same failure condition) reached under several guards is
+	// one obligation: (g1 ∨ g2 ∨ …) ∧ bad
+	id := what + "@" + x.posStr(pos)
+	key := rtKey{id: id, bad: bad.ID, n: len(x.assumes)}
+	if x.rtIndex == nil {
+		x.rtIndex = map[rtKey]*rtEntry{}
+	}
+	if e, ok := x.rtIndex[key]; ok {
+		e.g = x.c.Or(e.g, g)
+		e.ob.Cond = x.c.And(e.g, bad)
+		x.stat.mergedChecks++
+		return
+	}
+	x.addOblig("panic", id, cnd, pos)
+	x.rtIndex[key] = &rtEntry{ob: x.obls[len(x.obls)-1], g: g}
+}
+
+type rtKey struct {
+	id  string
+	bad int32
+	n   int
+}
+
+type rtEntry struct {
+	ob *Oblig
+	g  *Term
 }
 
 // ---------------- function execution ----------------
@@ -234,6 +262,69 @@ func (x *Exec) takePending(fr *Frame, b *ssa.BasicBlock) []Edge {
 	return e
 }
 
+// orGuards computes the disjunction of edge guards, recombining Shannon splits
+// (x∧c) ∨ (x∧¬c) = x among any pair (not only adjacent ones), so that a join after an if/else-if
+// chain or a switch gets back the guard of the branching block.
+func (x *Exec) orGuards(edges []Edge) *Term {
+	c := x.c
+	if len(edges) == 1 {
+		return edges[0].g
+	}
+	gs := make([]*Term, 0, len(edges))
+	for _, e := range edges {
+		if e.g.IsTrue() {
+			return c.True
+		}
+		if !e.g.IsFalse() {
+			gs = append(gs, e.g)
+		}
+	}
+	split := func(g *Term) (a, b *Term, ok bool) {
+		if g.Op == OAnd {
+			return g.A[0], g.A[1], true
+		}
+		return nil, nil, false
+	}
+	for changed := true; changed && len(gs) > 1; {
+		changed = false
+	outer:
+		for i := 0; i < len(gs); i++ {
+			a0, a1, ok := split(gs[i])
+			if !ok {
+				continue
+			}
+			for j := i + 1; j < len(gs); j++ {
+				b0, b1, ok := split(gs[j])
+				if !ok {
+					continue
+				}
+				var m *Term
+				switch {
+				case a0 == b0 && c.Not(a1) == b1:
+					m = a0
+				case a0 == b1 && c.Not(a1) == b0:
+					m = a0
+				case a1 == b0 && c.Not(a0) == b1:
+					m = a1
+				case a1 == b1 && c.Not(a0) == b0:
+					m = a1
+				}
+				if m != nil {
+					gs[i] = m
+					gs = append(gs[:j], gs[j+1:]...)
+					changed = true
+					break outer
+				}
+			}
+		}
+	}
+	g := c.False
+	for _, t := range gs {
+		g = c.Or(g, t)
+	}
+	return g
+}
+
 const hardLoopCap = 1 << 16
 
 func (x *Exec) runLoop(fr *Frame, l *Loop) {
@@ -247,8 +338,8 @@ func (x *Exec) runLoop(fr *Frame, l *Loop) {
 	for iter := 0; ; iter++ {
 		in := fr.pending[h.Index]
 		g := x.c.False
-		for _, e := range in {
-			g = x.c.Or(g, e.g)
+		if len(in) > 0 {
+			g = x.orGuards(in)
 		}
 		if g.IsFalse() {
 			fr.pending[h.Index] = nil
@@ -303,13 +394,16 @@ func firstPos(b *ssa.BasicBlock) token.Pos {
 // exactly it), which is itself an obligation of C18.
 func (x *Exec) runBitScanLoop(fr *Frame, l *Loop) {
 	h := l.Header
+	if len(fr.pending[h.Index]) == 0 {
+		return
+	}
 	x.stat.bitScanLoops++
 	addr := x.eval(fr, l.BitScanAddr)
 	for j := 0; j <= 64; j++ {
 		in := fr.pending[h.Index]
 		g := x.c.False
-		for _, e := range in {
-			g = x.c.Or(g, e.g)
+		if len(in) > 0 {
+			g = x.orGuards(in)
 		}
 		if g.IsFalse() {
 			fr.pending[h.Index] = nil
@@ -322,7 +416,9 @@ func (x *Exec) runBitScanLoop(fr *Frame, l *Loop) {
 				// by construction cur has all 64 bits cleared under g; make that explicit
 				x.store(addr, x.c.Const(64, 0), g)
 			}
+			fr.forceIf, fr.forceVal = h.Instrs[len(h.Instrs)-1].(*ssa.If), false
 			x.runBlock(fr, h)
+			fr.forceIf = nil
 			if len(fr.pending[h.Index]) != 0 {
 				x.fail("bit-scan loop did not terminate")
 			}
@@ -333,24 +429,26 @@ func (x *Exec) runBitScanLoop(fr *Frame, l *Loop) {
 		if bit.IsFalse() {
 			continue // nothing happens in virtual iteration j; pending edges stay
 		}
-		// split incoming edges: with bit j set they enter the body, otherwise they skip to j+1
+		// merge the incoming edges into one (guard g, phi values merged), then split it: with bit j set
+		// it enters the body, otherwise it skips to j+1
 		edges := x.takePending(fr, h)
+		me := x.mergeEdges(edges, g)
 		var enter, skip []Edge
-		for _, e := range edges {
-			ge := x.c.And(e.g, bit)
-			gs := x.c.And(e.g, x.c.Not(bit))
-			if !ge.IsFalse() {
-				enter = append(enter, Edge{predPos: e.predPos, g: ge, phi: e.phi, snap: e.snap})
-			}
-			if !gs.IsFalse() {
-				skip = append(skip, Edge{predPos: e.predPos, g: gs, phi: e.phi, snap: e.snap})
-			}
+		ge := x.c.And(g, bit)
+		gs := x.c.And(g, x.c.Not(bit))
+		if !ge.IsFalse() {
+			enter = append(enter, Edge{predPos: me.predPos, g: ge, phi: me.phi, snap: me.snap})
+		}
+		if !gs.IsFalse() {
+			skip = append(skip, Edge{predPos: me.predPos, g: gs, phi: me.phi, snap: me.snap})
 		}
 		if len(enter) > 0 {
 			fr.pending[h.Index] = enter
 			saved := x.opts["bitscan.sq"]
 			x.bitScanStack = append(x.bitScanStack, bitScanCtx{addr: addr, sq: j})
+			fr.forceIf, fr.forceVal = h.Instrs[len(h.Instrs)-1].(*ssa.If), true
 			x.runBlock(fr, h)
+			fr.forceIf = nil
 			for _, b := range fr.fi.RPO {
 				if b == h || !l.Blocks[b.Index] {
 					continue
@@ -376,6 +474,56 @@ func (x *Exec) runBitScanLoop(fr *Frame, l *Loop) {
 	}
 }
 
+// mergeEdges folds several incoming edges of a block into one edge with guard g.
+func (x *Exec) mergeEdges(edges []Edge, g *Term) Edge {
+	if len(edges) == 1 {
+		e := edges[0]
+		e.g = g
+		return e
+	}
+	me := Edge{predPos: edges[0].predPos, g: g}
+	nphi := len(edges[0].phi)
+	for pi := 0; pi < nphi; pi++ {
+		var res Value
+		for i := len(edges) - 1; i >= 0; i-- {
+			v := edges[i].phi[pi]
+			if res == nil {
+				res = v
+			} else {
+				res = x.merge(edges[i].g, v, res)
+			}
+		}
+		me.phi = append(me.phi, res)
+	}
+	keys := map[ssa.Value]bool{}
+	for _, e := range edges {
+		for k := range e.snap {
+			keys[k] = true
+		}
+	}
+	for k := range keys {
+		var res Value
+		for i := len(edges) - 1; i >= 0; i-- {
+			v, ok := edges[i].snap[k]
+			if !ok || v == nil {
+				continue
+			}
+			if res == nil {
+				res = v
+			} else {
+				res = x.merge(edges[i].g, v, res)
+			}
+		}
+		if res != nil {
+			if me.snap == nil {
+				me.snap = map[ssa.Value]Value{}
+			}
+			me.snap[k] = res
+		}
+	}
+	return me
+}
+
 type bitScanCtx struct {
 	addr Value
 	sq   int
@@ -388,10 +536,7 @@ func (x *Exec) runBlock(fr *Frame, b *ssa.BasicBlock) {
 	if len(edges) == 0 {
 		return
 	}
-	g := x.c.False
-	for _, e := range edges {
-		g = x.c.Or(g, e.g)
-	}
+	g := x.orGuards(edges)
 	if g.IsFalse() {
 		return
 	}
@@ -729,6 +874,9 @@ func (x *Exec) step(fr *Frame, b *ssa.BasicBlock, in ssa.Instruction) {
 		x.pushEdge(fr, b, 0, g)
 	case *ssa.If:
 		cond := x.term(fr, t.Cond)
+		if fr.forceIf == t {
+			cond = c.Bool(fr.forceVal)
+		}
 		x.pushEdge(fr, b, 0, c.And(g, cond))
 		x.pushEdge(fr, b, 1, c.And(g, c.Not(cond)))
 	default:
